@@ -25,6 +25,8 @@ CORPUS = [
     # round 3: a restart keeps the cache; a primary that answers reads with errors; truthful fromCache labels
     ["reset", "add 1 7", "ssave 1 1 9 5500", "sync -", "restart", "outage down 2 4", "sync -", "restart", "sync 3 pre", "restart"],
     ["reset", "ostale rerr 1 0 7", "ostale rerr 2 7 2", "outage rerr 3 6", "label 4 0 7", "label 5 7 2", "sync -"],
+    # label: the primary-only user of an earlier op is meanwhile cached (rows compared as they are now)
+    ["reset", "ostale rerr 8 21 15", "sync -", "label 8 17 5", "label 8 5 17"],
     ["reset", "flap mgU2F 1 7", "flap genTOTP 2 2", "flap addUser 3 0", "flap deleteUser 4 5", "sync -"],
 ]
 OFFS = [-4500, 5500, 5500, 20500, 100500]
@@ -217,7 +219,7 @@ def run(ctx):
         rp = json.load(open(ctx.replay))
         hists = [v["replay"]["history"] for v in rp.get("violations", []) if "history" in v.get("replay", {})] or CORPUS
     else:
-        n, length, heavy = (26, 22, 0.03) if ctx.quick() else (300, 40, 0.05)
+        n, length, heavy = (26, 22, 0.03) if ctx.quick() else (220, 40, 0.05)
         hists = [list(h) for h in CORPUS] + [gen_history(ctx.rng, ctx.rng.randint(length // 2, length), heavy) for _ in range(n)]
     res = run_histories(ctx, hists, "h")
     if res is None:
